@@ -45,7 +45,7 @@ def example_cases():
     return l, args
 
 
-def build_batch(workdir, plan, with_examples=True, directed=None):
+def build_batch(workdir, plan, with_examples=True, directed=None, extra=None):
     """plan: list of (profile name, count); directed: list of (name, linear program, argument tuples).
     Returns (artdir, index by name, args by name)."""
     lst, args = ([], {})
@@ -54,6 +54,9 @@ def build_batch(workdir, plan, with_examples=True, directed=None):
     for name, p, a in (directed or []):
         lst.append({"name": name, "kind": "axcut", "prog": p, "linear": True})
         args[name] = a
+    for case, a in (extra or []):
+        lst.append(case)
+        args[case["name"]] = a
     s = seed()
     for k, (prof, n) in enumerate(plan):
         for name, p, a in gen_axcut.generate(s * 100 + k, n, **PROFILES[prof]):
@@ -155,15 +158,16 @@ def coverage_of(results):
 
 
 def lockstep_check(pid, tier, backends, plan, maxsteps=6000, nblocks=96, timeout=1500, level="translation_validation",
-                   assumptions=None, extra_rule="", directed=None, with_examples=True, post=None, extra_cov=None):
+                   assumptions=None, extra_rule="", directed=None, with_examples=True, post=None, extra_cov=None,
+                   extra=None, footprint_k=2):
     t0 = time.time()
     build_harness()
     work = fresh_dir(WORK, pid)
-    art, index, args = build_batch(work, plan, with_examples=with_examples, directed=directed)
+    art, index, args = build_batch(work, plan, with_examples=with_examples, directed=directed, extra=extra)
     allv, allstats, states, trans, nprog, ncases = [], {}, 0, 0, 0, 0
     samples, cov = [], {}
     for be in backends:
-        r, cases, skipped = run_backend(pid, art, index, args, be, work, maxsteps, nblocks, timeout)
+        r, cases, skipped = run_backend(pid, art, index, args, be, work, maxsteps, nblocks, timeout, footprint_k=footprint_k)
         v, stats = classify(pid, be, r, art)
         for k, n in skipped.items():
             stats["skipped:" + k] += n
